@@ -70,6 +70,11 @@ let () =
       run id Z0 (args_of hexargs)
     | id :: "O" :: t :: hexkey :: _ ->
       Printf.printf "%s\t%s\n" id (observe t.[0] (bytes_of_hex hexkey))
+    | id :: "E" :: _ ->
+      (* engine keys per class: physical content of the Map state (no counterpart in the reference model) *)
+      let names = ["kv"; "hsize"; "hash"; "ssize"; "set"; "zsize"; "zset"; "zscore"; "lmeta"; "list"] in
+      Printf.printf "%s\t%s\n" id
+        (String.concat " " (List.map2 (fun n z -> n ^ "=:" ^ str_of_bytes (format_int z)) names (map_engine_counts !ms)))
     | id :: "T" :: hextables :: _ ->
       (* table key counters: the number of stored keys per table *)
       let parts = List.map (fun ht ->
